@@ -60,10 +60,13 @@ type c07Model struct {
 	Mock    bool     // mock agent registered for e1
 	MockGot []int
 	NBundle int
+	// bundles for e1 / e2 that arrived while nobody was registered for the endpoint: they wait in the store and are
+	// delivered by the next retry once somebody is
+	Unclaimed [2][]int
 }
 
 func (m c07Model) key() string {
-	return fmt.Sprintf("%v|%v|%v|%d", m.Client, m.Mailbox, m.Mock, len(m.MockGot))
+	return fmt.Sprintf("%v|%v|%v|%d|%d,%d", m.Client, m.Mailbox, m.Mock, len(m.MockGot), len(m.Unclaimed[0]), len(m.Unclaimed[1]))
 }
 
 func c07Alphabet() []c07Event {
@@ -80,7 +83,7 @@ func c07Alphabet() []c07Event {
 	for e := 0; e < 4; e++ {
 		out = append(out, c07Event{Op: "deliver", E: e})
 	}
-	out = append(out, c07Event{Op: "mockreg"}, c07Event{Op: "mockunreg"}, c07Event{Op: "ping"})
+	out = append(out, c07Event{Op: "mockreg"}, c07Event{Op: "mockunreg"}, c07Event{Op: "ping"}, c07Event{Op: "retry"})
 	return out
 }
 
@@ -233,6 +236,9 @@ func c07Replay(t c07Task) (res c07Result) {
 				recips = append(recips, "mock")
 				mockWant++
 			}
+			if len(recips) == 0 && e.E < 2 {
+				m.Unclaimed[e.E] = append(m.Unclaimed[e.E], m.NBundle)
+			}
 			n.receive(b, "r1")
 			// push markers through the multiplexer and the REST agent so that the delivery is complete
 			n.core.VerifAgentMarker(gen.MustEID(c07Endpoints[e.E]))
@@ -284,6 +290,49 @@ func c07Replay(t c07Task) (res c07Result) {
 				}
 			}
 			obs = append(obs, fmt.Sprintf("deliver%d->%v sent=%v rep=%v", m.NBundle, recips, sent, reports))
+		case "retry":
+			// the pending-retry job: bundles waiting for an endpoint that has recipients by now are delivered to them
+			mockWant := len(m.MockGot)
+			var claimed []int
+			for ep := 0; ep < 2; ep++ {
+				got := 0
+				for k := 0; k < 3; k++ {
+					if m.Client[k] == ep {
+						m.Mailbox[k] = append(m.Mailbox[k], m.Unclaimed[ep]...)
+						got++
+					}
+				}
+				if m.Mock && ep == 0 {
+					m.MockGot = append(m.MockGot, m.Unclaimed[ep]...)
+					mockWant += len(m.Unclaimed[ep])
+					got++
+				}
+				if got > 0 {
+					claimed = append(claimed, m.Unclaimed[ep]...)
+					m.Unclaimed[ep] = nil
+				}
+			}
+			n.retryTick()
+			for ep := 0; ep < 2; ep++ {
+				n.core.VerifAgentMarker(gen.MustEID(c07Endpoints[ep]))
+				n.core.VerifAgentMarker(gen.MustEID(c07Endpoints[ep]))
+			}
+			n.core.VerifAgentFlush()
+			if h.mock != nil && m.Mock && !h.mock.waitBundles(mockWant) {
+				return fail("mock-agent-missed-bundle", fmt.Sprintf("after the retry the mock agent has %d bundles, expected %d", len(h.mock.bundles()), mockWant), i)
+			}
+			for _, sd := range n.sendsSince(before) {
+				rb, derr := ref.Decode(sd.Enc)
+				if derr != nil || rb.P.Src.String() != "dtn://far/app" {
+					continue
+				}
+				for _, c := range claimed {
+					if int(rb.P.Seq) == c {
+						return fail("locally-registered-bundle-transmitted-to-peers", fmt.Sprintf("bundle %d waited for an endpoint that has local recipients by now; the retry handed it to convergence sender %s", c, sd.Peer), i)
+					}
+				}
+			}
+			obs = append(obs, fmt.Sprintf("retry claimed=%v", claimed))
 		case "mockreg":
 			if m.Mock {
 				continue
@@ -405,13 +454,36 @@ func (m *c07Model) step(e c07Event) bool {
 		m.Mailbox[e.K] = nil
 	case "deliver":
 		m.NBundle++
+		n := 0
 		for k := 0; k < 3; k++ {
 			if m.Client[k] == e.E {
 				m.Mailbox[k] = append(append([]int(nil), m.Mailbox[k]...), 1) // content abstracted to a count for matching
+				n++
 			}
 		}
 		if m.Mock && e.E == 0 {
 			m.MockGot = append(m.MockGot, 1)
+			n++
+		}
+		if n == 0 && e.E < 2 {
+			m.Unclaimed[e.E] = append(append([]int(nil), m.Unclaimed[e.E]...), 1)
+		}
+	case "retry":
+		for ep := 0; ep < 2; ep++ {
+			n := 0
+			for k := 0; k < 3; k++ {
+				if m.Client[k] == ep {
+					m.Mailbox[k] = append(append([]int(nil), m.Mailbox[k]...), m.Unclaimed[ep]...)
+					n++
+				}
+			}
+			if m.Mock && ep == 0 {
+				m.MockGot = append(append([]int(nil), m.MockGot...), m.Unclaimed[ep]...)
+				n++
+			}
+			if n > 0 {
+				m.Unclaimed[ep] = nil
+			}
 		}
 	case "mockreg":
 		if m.Mock {
